@@ -72,6 +72,9 @@ type Job struct {
 	Histories   int      `json:"h"`  // smt world: 1 = single commit; 2 = also the set-all-then-delete history
 	AllBits     bool     `json:"ab"` // flip phase: every value bit instead of first/last byte
 	SkipClasses []string `json:"skip,omitempty"`
+	// ConfirmHang: this job starts at a case whose VerifyProof call exceeded the CPU limit in another (long-running)
+	// worker process; only if it exceeds the limit AGAIN, as the first call of this fresh process, is it a hang
+	ConfirmHang bool `json:"ch,omitempty"`
 }
 
 type caseRef struct {
@@ -94,9 +97,10 @@ type caseRef struct {
 }
 
 type hangInfo struct {
-	Unit  int    `json:"u"`
-	Next  int64  `json:"n"`
-	Class string `json:"c"`
+	Unit    int    `json:"u"`
+	Next    int64  `json:"n"`
+	Class   string `json:"c"`
+	Suspect bool   `json:"s,omitempty"` // not confirmed yet: re-run the same case first in a fresh process
 }
 
 type Result struct {
@@ -307,6 +311,13 @@ func (u *unitCtx) eval(c *caseIn) {
 	refRoot := refRootMatches(c.proof, u.root)
 	proof := cloneProof(c.proof)
 	u.wd.begin(func() {
+		if !(j.ConfirmHang && no == j.StartCase && u.unit == j.Lo) {
+			// the limit is on PROCESS cpu time: a long-lived worker that has accumulated thousands of never-closed
+			// in-memory stores (VerifyProof opens one per call) can spend seconds in the garbage collector during one
+			// call. Not a verdict: the same case is re-run as the first call of a fresh process.
+			u.res.Hung = &hangInfo{Unit: u.unit, Next: no, Class: hclass, Suspect: true}
+			u.emit()
+		}
 		sig := "C16:hang:honest-proof-of-A-for-claim-about-B:" + rel
 		if !c.honest {
 			sig = "C16:malformed:" + c.mutClass + ":hang"
@@ -765,9 +776,12 @@ func (p *pool) run(jobs []Job, par int) {
 				} else {
 					p.onResult(j, r)
 					if r.Hung != nil {
-						p.hangs[r.Hung.Class]++
 						c := j
 						c.Lo, c.StartCase = r.Hung.Unit, r.Hung.Next
+						c.ConfirmHang = r.Hung.Suspect
+						if !r.Hung.Suspect {
+							p.hangs[r.Hung.Class]++
+						}
 						p.queue = append([]Job{c}, p.queue...)
 					}
 				}
@@ -978,7 +992,7 @@ func main() {
 		for o, n := range res.ViolCounts {
 			a.ViolCounts[o] += n
 		}
-		if res.Hung != nil {
+		if res.Hung != nil && !res.Hung.Suspect {
 			a.hangs++
 		}
 		for _, n := range res.Notes {
@@ -1110,6 +1124,9 @@ func doReplay(r *mc.Run) {
 		hist = 1
 	}
 	j := Job{World: ref.World, Cfg: ref.Cfg, Phase: ref.Phase, Lo: ref.Unit, Hi: ref.Unit + 1, Only: ref.Case, Histories: hist, AllBits: ref.All}
+	if ref.Case >= 0 {
+		j.StartCase, j.ConfirmHang = ref.Case, true // a replay is a fresh process: an exceeded CPU limit is final
+	}
 	var calls int64
 	for i := 0; i < 5; i++ {
 		res, err := execJob(j, nil)
